@@ -1,8 +1,11 @@
 package main
 
 import (
+	"bytes"
+	"context"
 	"encoding/json"
 	"flag"
+	"os/exec"
 	"fmt"
 	"os"
 	"path/filepath"
@@ -16,10 +19,87 @@ type PropSpec struct {
 	Level       string   `json:"level"` // proof | other
 	Functions   []string `json:"functions"`
 	Lemmas      []string `json:"lemmas"`
-	Bounded     []string `json:"bounded"`      // names of bounded harness clauses (run by the driver script)
+	Bounded     []BoundedSpec `json:"bounded"` // bounded stand-ins (executable harness injected by overlay); never counted as proved
 	Assumptions []string `json:"assumptions"`  // property-level assumptions (stated)
 	NotCovered  []string `json:"not_covered"`  // clauses of the property this check does not decide
 	Explanation string   `json:"explanation"`
+}
+
+type BoundedSpec struct {
+	Name string `json:"name"`
+	Pkg  string `json:"pkg"`  // package directory under the repository
+	File string `json:"file"` // harness source under /verif
+	Run  string `json:"run"`  // test name
+	What string `json:"what"`
+}
+
+type BoundedResult struct {
+	Name     string   `json:"name"`
+	Cases    int      `json:"cases"`
+	Failures int      `json:"failures"`
+	Bound    string   `json:"bound"`
+	WallS    float64  `json:"wall_s"`
+	FailLines []string `json:"fail_lines,omitempty"`
+	Error    string   `json:"error,omitempty"`
+	What     string   `json:"what"`
+}
+
+func runBounded(repo, verif string, b BoundedSpec, tier, wd string) *BoundedResult {
+	r := &BoundedResult{Name: b.Name, What: b.What}
+	t0 := time.Now()
+	src := filepath.Join(verif, b.File)
+	if _, err := os.Stat(src); err != nil {
+		r.Error = "harness file missing: " + src
+		return r
+	}
+	ov := map[string]map[string]string{"Replace": {filepath.Join(repo, b.Pkg, "zz_govc_harness_test.go"): src}}
+	ovData, _ := json.Marshal(ov)
+	ovFile := filepath.Join(wd, "overlay_"+b.Name+".json")
+	os.WriteFile(ovFile, ovData, 0o644)
+	ctx, cancel := context.WithTimeout(context.Background(), 20*time.Minute)
+	defer cancel()
+	cmd := exec.CommandContext(ctx, "go", "test", "-overlay", ovFile, "-vet=off", "-timeout", "15m", "-count=1", "-run", "^"+b.Run+"$", "-v", ".")
+	cmd.Dir = filepath.Join(repo, b.Pkg)
+	cmd.Env = append(os.Environ(), "GOFLAGS=-mod=mod", "GOPROXY=off", "GOSUMDB=off", "GOTOOLCHAIN=local", "VERIF_TIER="+tier)
+	var out bytes.Buffer
+	cmd.Stdout = &out
+	cmd.Stderr = &out
+	err := cmd.Run()
+	r.WallS = round3(time.Since(t0).Seconds())
+	seen := false
+	for _, l := range strings.Split(out.String(), "\n") {
+		if strings.HasPrefix(l, "GOVC-FAIL") {
+			r.FailLines = append(r.FailLines, l)
+		}
+		if strings.HasPrefix(l, "GOVC-BOUNDED") {
+			seen = true
+			fmt.Sscanf(afterKey(l, "cases="), "%d", &r.Cases)
+			fmt.Sscanf(afterKey(l, "failures="), "%d", &r.Failures)
+			if k := strings.Index(l, "bound=\""); k >= 0 {
+				r.Bound = strings.TrimSuffix(l[k+7:], "\"")
+			}
+		}
+	}
+	if !seen {
+		// the harness did not complete: compile error, panic outside a guard, or timeout
+		tail := out.String()
+		if len(tail) > 1500 {
+			tail = tail[len(tail)-1500:]
+		}
+		r.Error = fmt.Sprintf("harness did not complete (%v): %s", err, tail)
+		if strings.Contains(out.String(), "panic:") || strings.Contains(out.String(), "fatal error:") {
+			r.Failures++
+			r.FailLines = append(r.FailLines, "GOVC-FAIL harness aborted by a panic in the code under test: "+firstLines(tail, 12))
+		}
+	}
+	return r
+}
+
+func afterKey(l, key string) string {
+	if k := strings.Index(l, key); k >= 0 {
+		return l[k+len(key):]
+	}
+	return ""
 }
 
 type KnownFinding struct {
@@ -326,6 +406,34 @@ func cmdCheck(args []string) {
 		writeJSON(path, rf)
 		fmt.Printf("VIOLATION property=%s replay=%s obligation=%s/contract-binds status=engine-error (%s) no-failing-input-found\n", *prop, path, n, engineErrs[n])
 	}
+	// bounded stand-ins (executable harnesses on the real code; labelled bounded, never counted as discharged)
+	var bres []*BoundedResult
+	for _, b := range ps.Bounded {
+		br := runBounded(*repo, *verif, b, *tier, wd)
+		bres = append(bres, br)
+		if br.Error != "" && br.Failures == 0 {
+			toolTrouble = true
+			fmt.Printf("TOOL-TROUBLE bounded harness %s: %s\n", b.Name, br.Error)
+			continue
+		}
+		if br.Failures > 0 {
+			obName := "bounded:" + b.Name
+			if kf := matchKnown(known, *prop, obName); kf != nil {
+				knownLines = append(knownLines, fmt.Sprintf("KNOWN-FINDING: property=%s %s [%s]", *prop, kf.What, obName))
+				continue
+			}
+			violations++
+			rf := &ReplayFile{Property: *prop, Obligation: obName, Kind: "bounded", Status: "failed", SolverOut: strings.Join(br.FailLines, "\n"),
+				Note: "failing inputs found by the bounded executable-contract harness " + b.File + " (test " + b.Run + " injected into /repo/" + b.Pkg + " by overlay); each GOVC-FAIL line is a concrete input that violates the property on the real code"}
+			path := filepath.Join(replayDir, sanitize(obName)+".json")
+			os.MkdirAll(replayDir, 0o755)
+			writeJSON(path, rf)
+			fmt.Printf("VIOLATION property=%s replay=%s obligation=%s status=failing-input-found\n", *prop, path, obName)
+			for _, l := range br.FailLines {
+				fmt.Println("  " + l)
+			}
+		}
+	}
 	for _, l := range knownLines {
 		fmt.Println(l)
 	}
@@ -374,7 +482,7 @@ func cmdCheck(args []string) {
 		"samples":                  samples,
 		"known_findings_printed":   len(knownLines),
 		"not_covered":              ps.NotCovered,
-		"bounded_clauses":          ps.Bounded,
+		"bounded_clauses":          bres,
 		"explanation":              ps.Explanation,
 		"per_obligation_timeout_s": timeout,
 		"two_solver_agreement":     two,
